@@ -34,6 +34,16 @@ STR, INT, BOOL = ("str",), ("int",), ("bool",)
 SET = ("set",)
 META = ("meta",)
 ASG = ("asg",)
+BYTES = ("bytes",)
+MEMBER = ("member",)          # _JoinGroupResponseMember: (member_id, member_metadata bytes)
+ADICT = ("adict",)            # one member's share: topic -> [partition]
+SYNCOBJ = ("syncassign",)     # what decode_sync_group_member_assignment returns: (version, assignments, user_data)
+CODEC = {   # KafkaCodec functions: (Gallina term builder, parameter names, result type); their own translator ties: C04gen / C05gen
+    "decode_join_group_protocol_metadata": ("dec_meta", ["data"], META),
+    "decode_sync_group_member_assignment": ("dec_asg", ["data"], SYNCOBJ),
+    "encode_sync_group_member_assignment": ("enc_asg", ["version", "assignments", "user_data"], BYTES),
+    "encode_join_group_protocol_metadata": ("enc_meta", ["version", "subscriptions", "user_data"], BYTES),
+}
 
 
 def LIST(t):
@@ -74,8 +84,11 @@ MUTATORS = ("update", "add", "append", "sort", "extend")
 
 
 class Fn:
-    def __init__(self, fn, param_types, coqname):
-        self.fn, self.coqname = fn, coqname
+    def __init__(self, fn, param_types, coqname, ret_type=ASG, class_consts=None):
+        self.fn, self.coqname, self.ret_type = fn, coqname, ret_type
+        self.class_consts = class_consts or {}
+        self.inline = 0
+        self.inline_ret = None
         a = fn.args
         if a.vararg or a.kwarg or a.kwonlyargs or getattr(a, "posonlyargs", []) or a.defaults or fn.decorator_list:
             refuse(fn, "signature")
@@ -89,9 +102,11 @@ class Fn:
         for n, t in zip(self.params, param_types):
             self.env0[n] = (self.var(n), t)
         for node in ast.walk(fn):
-            if isinstance(node, (ast.Global, ast.Nonlocal, ast.FunctionDef, ast.ClassDef, ast.Yield, ast.YieldFrom, ast.Await,
-                                 ast.With, ast.Delete)) and node is not fn:
+            if isinstance(node, (ast.Global, ast.Nonlocal, ast.ClassDef, ast.Yield, ast.YieldFrom, ast.Await,
+                                 ast.With, ast.Delete, ast.AsyncFunctionDef)) and node is not fn:
                 refuse(node, type(node).__name__)
+            if isinstance(node, ast.FunctionDef) and node is not fn and node not in fn.body:
+                refuse(node, "nested def below the top level of the method")
 
     # ---- names
     def var(self, name):
@@ -114,12 +129,16 @@ class Fn:
         def targets(t):
             if isinstance(t, ast.Name):
                 add(t.id)
+            elif isinstance(t, ast.Subscript) and isinstance(t.value, ast.Name):
+                add(t.value.id)
             elif isinstance(t, (ast.Tuple, ast.List)):
                 for x in t.elts:
                     targets(x)
             else:
                 refuse(t, "assignment target")
         for s in stmts:
+            if isinstance(s, ast.FunctionDef):
+                continue
             for n in ast.walk(s):
                 if isinstance(n, ast.Call) and isinstance(n.func, ast.Name) and n.func.id == "next" and n.args and isinstance(n.args[0], ast.Name):
                     add(n.args[0].id)
@@ -195,10 +214,31 @@ class Fn:
             return b1 + b2, "(%s, %s)" % (t1, t2), ("tuple", ty1, ty2)
         if isinstance(e, ast.List) and not e.elts:
             return [], "[]", LIST(None)
+        if isinstance(e, ast.List) and len(e.elts) == 1 and not isinstance(e.elts[0], ast.Starred):
+            b, t, ty = self.ex(e.elts[0], env)
+            return b, "[%s]" % t, LIST(ty)
+        if isinstance(e, ast.Dict) and not e.keys:
+            return [], "[]", DICT(None)
+        if isinstance(e, ast.Constant):
+            if isinstance(e.value, bytes) and e.value == b"":
+                return [], "(@nil Z)", BYTES
+            if isinstance(e.value, int) and not isinstance(e.value, bool):
+                return [], "(%d)" % e.value, INT
+            refuse(e, "constant %r" % (e.value,))
         if isinstance(e, ast.Attribute):
+            if isinstance(e.value, ast.Name) and e.value.id == "self" and "self" not in env:
+                if e.attr in self.class_consts:
+                    return [], "[%s]" % "; ".join(str(ord(c)) for c in self.class_consts[e.attr]), STR
+                refuse(e, "attribute self." + e.attr)
             b, t, ty = self.ex(e.value, env)
             if e.attr == "subscriptions" and ty == META:
                 return b, t, LIST(STR)
+            if e.attr == "member_id" and ty == MEMBER:
+                return b, "(fst %s)" % t, STR
+            if e.attr == "member_metadata" and ty == MEMBER:
+                return b, "(snd %s)" % t, BYTES
+            if e.attr == "assignments" and ty == SYNCOBJ:
+                return b, "(snd (fst %s))" % t, ADICT
             refuse(e, "attribute ." + e.attr)
         if isinstance(e, ast.Subscript):
             if isinstance(e.slice, (ast.Slice, ast.Tuple)):
@@ -211,8 +251,35 @@ class Fn:
             return b1 + b2 + [(tmp, "py_getitem %s %s" % (d, k))], tmp, ty[1]
         if isinstance(e, ast.Call):
             name = dotted(e.func)
-            if e.keywords or any(isinstance(a, ast.Starred) for a in e.args):
+            if isinstance(e.func, ast.Name) and e.func.id in env and env[e.func.id][1][0] == "func":
+                name = env[e.func.id][1][1]                      # a local alias of a codec function
+            if any(isinstance(a, ast.Starred) for a in e.args) or any(k.arg is None for k in e.keywords):
                 refuse(e, "call form")
+            if name is not None and name.startswith("KafkaCodec.") and name[len("KafkaCodec."):] in CODEC:
+                return self.codec_call(e, name[len("KafkaCodec."):], env)
+            if isinstance(e.func, ast.Name) and e.func.id in env and env[e.func.id][1][0] == "localdef":
+                return self.inline_call(e, env[e.func.id][1][1], env)
+            if e.keywords:
+                refuse(e, "keyword arguments")
+            if name == "self._round_robin_assignment" and len(e.args) == 2:
+                b1, a, ta = self.ex(e.args[0], env)
+                b2, c, tc = self.ex(e.args[1], env)
+                if ta != DICT(META) or tc != DICT(LIST(INT)):
+                    refuse(e, "argument types of _round_robin_assignment")
+                tmp = self.fresh()
+                return b1 + b2 + [(tmp, "gen_round_robin fuel %s %s" % (a, c))], tmp, ASG
+            if name in ("_SyncGroupRequestMember", "_JoinGroupRequestProtocol") and len(e.args) == 2:
+                b1, a, ta = self.ex(e.args[0], env)
+                b2, c, tc = self.ex(e.args[1], env)
+                if (ta, tc) != (STR, BYTES):
+                    refuse(e, "argument types of " + name)
+                return b1 + b2, "(%s, %s)" % (a, c), ("tuple", STR, BYTES)
+            if isinstance(e.func, ast.Attribute) and e.func.attr == "get" and len(e.args) == 2:
+                b1, d, td = self.ex(e.func.value, env)
+                b2, k, tk = self.ex(e.args[0], env)
+                if td == ASG and tk == STR and isinstance(e.args[1], ast.Dict) and not e.args[1].keys:
+                    return b1 + b2, "(asg_get %s %s)" % (d, k), ADICT
+                refuse(e, ".get() of this form")
             if name == "set" and not e.args:
                 return [], "[]", SET
             if name == "sorted" and len(e.args) == 1:
@@ -246,6 +313,69 @@ class Fn:
                 return b, t, LIST(("tuple", STR, ty[1]))
             refuse(e, "call of %s" % (name or "?"))
         refuse(e, "expression " + type(e).__name__)
+
+    def codec_call(self, e, fname, env):
+        kind, params, rty = CODEC[fname]
+        vals = {}
+        for p, a in zip(params, e.args):
+            vals[p] = a
+        if len(e.args) > len(params):
+            refuse(e, "too many arguments")
+        for k in e.keywords:
+            if k.arg not in params or k.arg in vals:
+                refuse(e, "keyword argument " + str(k.arg))
+            vals[k.arg] = k.value
+        if set(vals) != set(params):
+            refuse(e, "arguments of KafkaCodec." + fname)
+        binds, terms = [], {}
+        for p in params:                          # evaluation order = order of appearance; the arguments used here cannot raise
+            b, t, ty = self.ex(vals[p], env)
+            if b:
+                refuse(vals[p], "an argument that can raise")
+            terms[p] = (t, ty)
+        want = {"data": BYTES, "version": INT, "assignments": ADICT, "user_data": BYTES, "subscriptions": LIST(STR)}
+        for p in params:
+            if terms[p][1] != want[p]:
+                refuse(vals[p], "type of argument %s of KafkaCodec.%s" % (p, fname))
+        tmp = self.fresh()
+        if kind == "dec_meta":
+            m = "py_decode_metadata %s" % terms["data"][0]
+        elif kind == "dec_asg":
+            m = "dec_assignment %s" % terms["data"][0]
+        elif kind == "enc_asg":
+            m = "enc_assignment %s %s (Some %s)" % (terms["version"][0], terms["assignments"][0], terms["user_data"][0])
+        else:
+            m = "enc_metadata %s %s (Some %s)" % (terms["version"][0], terms["subscriptions"][0], terms["user_data"][0])
+        return [(tmp, m)], tmp, rty
+
+    def inline_call(self, e, fdef, env):
+        """call of a def nested in the method (a closure over the method's locals): its body, with the parameters bound"""
+        a = fdef.args
+        if a.vararg or a.kwarg or a.kwonlyargs or a.defaults or getattr(a, "posonlyargs", []) or e.keywords or fdef.decorator_list:
+            refuse(e, "form of the local function")
+        params = [x.arg for x in a.args]
+        if len(params) != len(e.args) or self.inline > 3:
+            refuse(e, "arguments of the local function")
+        binds, env2, lets = [], dict(env), ""
+        for pn, arg in zip(params, e.args):
+            b, t, ty = self.ex(arg, env)
+            binds += b
+            env2[pn] = (self.var(pn), ty)
+            lets += "let %s := %s in " % (env2[pn][0], t)
+        self.inline += 1
+        saved = self.inline_ret
+        self.inline_ret = None
+
+        def nofall(e2):
+            refuse(fdef, "local function can fall off its end")
+        body = self.block(list(fdef.body), env2, nofall, False)
+        rty = self.inline_ret
+        self.inline_ret = saved
+        self.inline -= 1
+        if rty is None:
+            refuse(fdef, "local function without return")
+        tmp = self.fresh()
+        return binds + [(tmp, lets + "\n" + body)], tmp, rty
 
     def iterable(self, e, env):
         """what iterating e yields, as a list: (binds, term, ("list", T))"""
@@ -320,12 +450,40 @@ class Fn:
             return nxt(env)
         if isinstance(s, ast.AnnAssign) and s.value is not None:
             s = ast.copy_location(ast.Assign(targets=[s.target], value=s.value), s)
+        if isinstance(s, ast.FunctionDef):
+            if nested:
+                refuse(s, "nested def inside a loop or branch")
+            env2 = dict(env)
+            env2[s.name] = (None, ("localdef", s))
+            return nxt(env2)
+        if isinstance(s, ast.Return) and isinstance(s.value, ast.ListComp):
+            tmpname = "__ret%d" % len(self.levels)
+            new = self.desugar_comp(ast.Name(id=tmpname, ctx=ast.Store()), s.value)
+            ret = ast.copy_location(ast.Return(value=ast.Name(id=tmpname, ctx=ast.Load())), s)
+            return self.block(new + [ret] + rest, env, k, nested)
         if isinstance(s, ast.Assign):
             if len(s.targets) != 1:
                 refuse(s, "chained assignment")
             t, v = s.targets[0], s.value
             if isinstance(v, ast.ListComp):
                 return self.block(self.desugar_comp(t, v) + rest, env, k, nested)
+            if isinstance(v, ast.DictComp) and isinstance(t, ast.Name):
+                return self.block(self.desugar_dictcomp(t, v) + rest, env, k, nested)
+            if isinstance(t, ast.Name) and dotted(v) is not None and dotted(v).startswith("KafkaCodec.") and dotted(v)[11:] in CODEC:
+                env2 = dict(env)
+                env2[t.id] = (None, ("func", dotted(v)))
+                return nxt(env2)
+            if isinstance(t, ast.Subscript) and isinstance(t.value, ast.Name) and not isinstance(t.slice, (ast.Slice, ast.Tuple)):
+                d = t.value.id
+                if d not in env or env[d][1][0] != "dict":
+                    refuse(s, "item assignment on a non-dict")
+                b1, kk, tk = self.ex(t.slice, env)
+                b2, vv, tv = self.ex(v, env)
+                if tk != STR or (env[d][1][1] is not None and env[d][1][1] != tv):
+                    refuse(s, "types of d[k] = v")
+                env2 = dict(env)
+                env2[d] = (env[d][0], DICT(tv))
+                return self.wrap(b1 + b2, "let %s := dict_set %s %s %s in\n%s" % (env[d][0], env[d][0], kk, vv, nxt(env2)))
             if isinstance(v, ast.Call) and isinstance(v.func, ast.Name) and v.func.id == "next" and len(v.args) == 1 \
                     and isinstance(v.args[0], ast.Name) and isinstance(t, ast.Name):
                 it = v.args[0].id
@@ -397,8 +555,10 @@ class Fn:
             if s.value is None:
                 refuse(s, "return without a value")
             b, t, ty = self.ex(s.value, env)
-            if ty != ASG:
-                refuse(s, "return of something that is not the assignment dict")
+            if self.inline:
+                self.inline_ret = ty
+            elif ty != self.ret_type:
+                refuse(s, "return of a value of another type than the method's result")
             return self.wrap(b, "Ok %s" % t)
         if isinstance(s, ast.For):
             if s.orelse:
@@ -530,6 +690,22 @@ class Fn:
             ast.fix_missing_locations(n)
         return out
 
+    def desugar_dictcomp(self, target, comp):
+        """x = {K: V for a in A ...}  ==  x = {}; for a in A: x[K] = V"""
+        body = [ast.Assign(targets=[ast.Subscript(value=ast.Name(id=target.id, ctx=ast.Load()), slice=comp.key, ctx=ast.Store())], value=comp.value)]
+        for gen in reversed(comp.generators):
+            if gen.is_async:
+                refuse(comp, "async comprehension")
+            for c in reversed(gen.ifs):
+                body = [ast.If(test=c, body=body, orelse=[])]
+            body = [ast.For(target=gen.target, iter=gen.iter, body=body, orelse=[])]
+        init = ast.Assign(targets=[ast.Name(id=target.id, ctx=ast.Store())], value=ast.Dict(keys=[], values=[]))
+        out = [init] + body
+        for n in out:
+            ast.copy_location(n, comp)
+            ast.fix_missing_locations(n)
+        return out
+
     def raise_term(self, s, env):
         e = s.exc
         if (isinstance(e, ast.Call) and dotted(e.func) == "_NeedTopicPartitions" and len(e.args) == 1 and not e.keywords
@@ -584,6 +760,52 @@ def translate_source(source):
     return text
 
 
+def class_string_constants(tree, cls):
+    out = {}
+    for node in tree.body:
+        if isinstance(node, ast.ClassDef) and node.name == cls:
+            count = {}
+            for st in node.body:
+                if isinstance(st, ast.Assign) and len(st.targets) == 1 and isinstance(st.targets[0], ast.Name):
+                    count[st.targets[0].id] = count.get(st.targets[0].id, 0) + 1
+                    if isinstance(st.value, ast.Constant) and isinstance(st.value.value, str):
+                        out[st.targets[0].id] = st.value.value
+            out = {k: v for k, v in out.items() if count.get(k) == 1}
+    return out
+
+
+WRAP_PRELUDE = "From AV Require Import Base.Util Model.Assign Model.AssignPy Model.AssignGen.\n\n"
+
+
+def translate_wrapping(source):
+    """generate_assignments, decode_assignment, join_group_protocols of _ConsumerProtocol (straight-line code over the
+    KafkaCodec functions, which have their own translator ties C04gen / C05gen, and over _round_robin_assignment)"""
+    tree = ast.parse(source)
+    consts = class_string_constants(tree, "_ConsumerProtocol")
+    out = ["(* GENERATED by harness/py2assign.py from afkak/_group.py _ConsumerProtocol.generate_assignments / decode_assignment / "
+           "join_group_protocols - do not edit. *)\n" + WRAP_PRELUDE]
+    specs = [("generate_assignments", [LIST(MEMBER), DICT(LIST(INT))], LIST(("tuple", STR, BYTES)),
+              "Definition gen_generate_assignments (fuel : nat) (%s : list (str * list Z)) (%s : tpmap) : result (list (str * list Z)) :=\n%s.\n"),
+             ("decode_assignment", [BYTES], ADICT, "Definition gen_decode_assignment (%s : list Z) : result adict :=\n%s.\n"),
+             ("join_group_protocols", [LIST(STR)], LIST(("tuple", STR, BYTES)),
+              "Definition gen_join_group_protocols (%s : list (list Z)) : result (list (str * list Z)) :=\n%s.\n")]
+    for name, ptypes, rty, template in specs:
+        f = Fn(find_method(tree, "_ConsumerProtocol", name), ptypes, "gen_" + name, ret_type=rty, class_consts=consts)
+        body = f.definition()
+        out.append(template % tuple([f.env0[p][0] for p in f.params] + [indent(body)]))
+    out.append("Create HintDb gen_assign_wrap_defs.\n#[export] Hint Unfold gen_generate_assignments gen_decode_assignment "
+               "gen_join_group_protocols : gen_assign_wrap_defs.\n")
+    return "\n".join(out)
+
+
+def translate_repo_wrapping(repo):
+    try:
+        src = open(os.path.join(repo, "afkak", "_group.py")).read()
+        return True, translate_wrapping(src), "translated"
+    except (Refused, SyntaxError, OSError, RecursionError) as e:
+        return False, None, "%s: %s" % (type(e).__name__, str(e)[:300])
+
+
 def translate_repo(repo):
     try:
         src = open(os.path.join(repo, "afkak", "_group.py")).read()
@@ -594,5 +816,7 @@ def translate_repo(repo):
 
 if __name__ == "__main__":
     import sys
-    ok, text, msg = translate_repo(sys.argv[1] if len(sys.argv) > 1 else "/repo")
-    print(text if ok else "FAILED: " + msg)
+    which = translate_repo_wrapping if "--wrap" in sys.argv else translate_repo
+    args = [a for a in sys.argv[1:] if a != "--wrap"]
+    ok, text, msg = which(args[0] if args else "/repo")
+    sys.stdout.write(text if ok else "FAILED: " + msg + "\n")
